@@ -7,6 +7,7 @@ the loop of `instance.Run` that is not an identity breaks a lemma here.  Core Le
 -/
 import Pandora.Gen.Startup
 import Pandora.Model.C12
+import Pandora.Model.C12Pool
 
 namespace Pandora.Bridge.C12Startup
 open Pandora.Go.C12 Pandora.Model.C12
@@ -95,5 +96,38 @@ theorem instanceRun_eq (its : List RunIter) : Gen.Startup.instanceRun its = inst
     simp only [Gen.Startup.instanceRun, instRun, IsFinished_eq, runBody_eq, ih]
 
 theorem recoversShootPanic_eq : Gen.Startup.recoversShootPanic = true := rfl
+
+/-! ### the counters of the await loop (pool layer, Model/C12Pool) -/
+
+/-- `checkAllInstancesAreFinished` goes on exactly when instance start has finished and at least as many results were
+awaited as instances were started (stated semantically: `a >= b` or `b <= a`, with or without the local variable) -/
+theorem allFinished_eq (a : Await) : Gen.Startup.allFinished a = allFinished a := by
+  rcases a with ⟨sf, st, aw⟩
+  cases sf <;> simp [Gen.Startup.allFinished, allFinished]
+
+/-- …and then cancels the RUN context (the only place where the pool does so by itself, `runCancelCallers_eq`) -/
+theorem onAllFinished_eq : Gen.Startup.onAllFinished = [PoolAct.cancel Ctx.run] := rfl
+
+/-- the start result: instance start counts as finished, `startedInstances` is what `startInstances` returned -/
+theorem onStartResAwait_eq (a : Await) (n : Int) : Gen.Startup.onStartResAwait a n = onStartResAwait a n := rfl
+
+/-- an error of `startInstances` that is not the start context's own (a creation error) fails the pool -/
+theorem onStartResult_eq (ce : Ctx → Bool) : Gen.Startup.onStartResult ce = onStartResult ce := by
+  unfold Gen.Startup.onStartResult onStartResult
+  cases ce Ctx.start <;> rfl
+
+/-- a run result: one more awaited -/
+theorem onRunResAwait_eq (a : Await) : Gen.Startup.onRunResAwait a = onRunResAwait a := rfl
+
+/-- both cases re-check "all finished" after updating their counters ("there is a race between run and start results") -/
+theorem checksAll_eq : Gen.Startup.startResChecksAll = true ∧ Gen.Startup.runResChecksAll = true := ⟨rfl, rfl⟩
+
+/-- what the pool layer does with a run result is what the regenerated case does — up to the redundant
+`isStartFinished` guard (cancelling an already finished instance start changes nothing) -/
+theorem onInstanceResult_model (a sf : Bool) (ce : Ctx → Bool) :
+    Gen.Startup.onInstanceResult a sf ce = onRunResult a sf ce ∨
+      (a = true ∧ sf = true ∧ Gen.Startup.onInstanceResult a sf ce = [PoolAct.cancel Ctx.start]) := by
+  unfold Gen.Startup.onInstanceResult onRunResult
+  cases a <;> cases sf <;> cases h : ce Ctx.run <;> simp [h]
 
 end Pandora.Bridge.C12Startup
